@@ -60,7 +60,7 @@ def cases(draw, big):
         size = draw(st.integers(56, 300) | (st.integers(301, 5000) if big else st.integers(56, 300)))
     else:
         size = draw(st.integers(0, 300))
-    return {"kind": kind, "size": size, "headers": draw(st.lists(header(size), min_size=1, max_size=5))}
+    return {"hsalt": draw(st.integers(0, 15)), "kind": kind, "size": size, "headers": draw(st.lists(header(size), min_size=1, max_size=5))}
 
 
 def run_shard(spec, ctx):
